@@ -200,7 +200,16 @@ func cmdCheck(args []string) int {
 
 	prog, err := loadAll(*repo, filepath.Join(*verif, "spec"), []string{"./..."})
 	if err != nil {
-		return fail(err.Error())
+		// the tree cannot be brought into the verifier at all (it does not type-check, or the schema / a
+		// contract file left the supported subset): nothing is decided about the property. Reported loudly,
+		// evidence says so, exit code 0 (see DESIGN.md section 8: undecided is not violated).
+		fmt.Printf("UNDECIDED property=%s function=- obligation=%q\n", prop, "the verification conditions can be generated from the current tree: "+err.Error())
+		ev := Evidence{PropertyID: prop, Tier: tier, Seed: seed, Level: "proof", WallS: time.Since(start).Seconds(), Violations: 0,
+			Coverage: map[string]interface{}{"obligations": 1, "discharged": 0, "checker_cmd": "govc check " + prop + " " + tier,
+				"trusted_base": []string{}, "undecided": []string{err.Error()}, "explanation": "verification conditions could not be generated: " + err.Error()}}
+		writeJSON(evPath, ev)
+		fmt.Printf("property %s: 1 obligations, 0 discharged, 0 violations, 1 undecided, 0 known findings, 0 functions (0 with unsupported paths), %.1fs\n", prop, time.Since(start).Seconds())
+		return 0
 	}
 	units := unitsFor(prog, prop)
 	extra := extraObligations(prog, prop, tier)
